@@ -64,6 +64,8 @@ func loadAll(repo, verif string) *Gen {
 		}
 	}
 	g.Spec.SynthesizeHeapGhostAxioms()
+	// lemmas are used like axioms by every function proof, and are themselves proved by induction (LemmaGens)
+	g.Spec.Axioms = append(g.Spec.Axioms, g.Spec.Lemmas...)
 	g.ComputeEffects()
 	return g
 }
@@ -279,6 +281,9 @@ func cmdCheck(args []string) {
 		}
 		fgs = append(fgs, fg)
 	}
+	if *only == "" || strings.HasPrefix(*only, "lemma") {
+		fgs = append(fgs, g.LemmaGens(*prop)...)
+	}
 	pre, err := g.Preamble()
 	if err != nil {
 		fatal("%v", err)
@@ -410,7 +415,7 @@ func cmdCheck(args []string) {
 			id = firstOr(r.O.Tags, "none")
 		}
 		// try to exhibit a failing input on the real code
-		if fgOf := fgByKey[r.O.Func]; fgOf != nil && os.Getenv("GOVC_NO_REPLAY") == "" {
+		if fgOf := fgByKey[r.O.Func]; fgOf != nil && fgOf.fn != nil && os.Getenv("GOVC_NO_REPLAY") == "" {
 			key := r.O.Func
 			if _, done := replayed[key]; !done {
 				replayed[key] = g.Replay(*repo, fgOf, r, seed)
